@@ -3,6 +3,7 @@ import Driver.Tid
 import Driver.Token
 import Driver.Storage
 import Driver.Table
+import Driver.Codec
 open Btdht Btdht.Driver
 
 /-- Generic loop for a stateful engine: one op per stdin line, one canonical line out. -/
@@ -24,4 +25,5 @@ def main (args : List String) : IO UInt32 := do
   | ["token"] => loopS stdin stdout tokenStep {}; return 0
   | ["storage"] => loopS stdin stdout storageStep Storage.empty; return 0
   | ["table"] => loopS stdin stdout tableStep {}; return 0
+  | ["codec"] => loopS stdin stdout (stateless codecStep) (); return 0
   | _ => IO.eprintln "usage: btdht_model <engine>"; return 2
